@@ -180,7 +180,8 @@ def run(sc):
                 # after a reply arrived late or a frame was torn, driver and target legitimately disagree about
                 # which reply answers which request (the library does not correlate them; outside the statement's
                 # fail-stop fault model): I1 is not evaluated for the rest of this driver session
-                hits.items[:] = [h for h in hits.items if not (h["oracle"] == "life.I1" and h["op"] == op["id"])]
+                hits.items[:] = [h for h in hits.items if not (h["oracle"] == "life.I1" and h["op"] == op["id"]
+                                                               and h["features"].get("what") != "session_zero")]
             sess_conns += [c for c in entry.connections if c not in conns_before]
             shape.append((k, outcome if not outcome.startswith("foreign") else "foreign",
                           "F" if fired_now else ""))
